@@ -1,7 +1,7 @@
 (* C19 -- operation mode, export limit and DoD setters round-trip with their getters (encoder level: the full-time
    eco-mode groups; the setter / getter sequences are checked on the real classes against the simulated inverter). *)
 From Coq Require Import ZArith List Bool String.
-From GW Require Import Prelude PyStr PyFloat Sensors SensorProofs CodecProofs Settings TablesGen SettingsGen SettingsProofs Modes ModesGen ModesInst ModesProofs.
+From GW Require Import Prelude PyStr PyFloat Sensors SensorProofs CodecProofs Settings TablesGen SettingsGen SettingsProofs Modes ModesGen ModesInst ModesProofs GuardedProofs.
 Import ListNotations.
 Open Scope Z_scope.
 
@@ -52,6 +52,32 @@ Theorem C19_eco_refuted :
   | Exc e => Exc e end = Ok (Some MEcoCharge).
 Proof. exact eco_refuted. Qed.
 
+(* set_grid_export_limit / get_grid_export_limit and set_ongrid_battery_dod / get_ongrid_battery_dod (guards, setting ids and the `100 - x`
+   complement GENERATED from ET / DT by tools/om2v.py) on the register-file model: an accepted argument is read back by the getter, with
+   exactly one write request, and no register outside the setting changes *)
+Theorem C19_et_export_limit_roundtrip : forall r x, 0 <= x < 65535 ->
+  et_export_limit <> None /\
+  exists r' w, run_gsetter et_settings et_ws (the et_export_limit) x r = Ok (r', [w]) /\ run_ggetter et_settings (the et_export_limit) r' = Ok (Some x) /\
+               (forall a, a <> fst w -> r' a = r a).
+Proof. exact et_export_limit_roundtrip. Qed.
+
+Theorem C19_et_dod_roundtrip : forall r x, 0 <= x <= 100 ->
+  et_dod <> None /\
+  exists r' w, run_gsetter et_settings et_ws (the et_dod) x r = Ok (r', [w]) /\ run_ggetter et_settings (the et_dod) r' = Ok (Some x) /\
+               (forall a, a <> fst w -> r' a = r a).
+Proof. exact et_dod_roundtrip. Qed.
+
+Theorem C19_dt_export_limit_roundtrip_three_phase : forall r x, 0 <= x < 65535 ->
+  dt_export_limit <> None /\
+  exists r' w, run_gsetter (dt_settings true) dt_ws (the dt_export_limit) x r = Ok (r', [w]) /\ run_ggetter (dt_settings true) (the dt_export_limit) r' = Ok (Some x) /\
+               (forall a, a <> fst w -> r' a = r a).
+Proof. exact dt_export_limit_roundtrip_three_phase. Qed.
+
+Theorem C19_dt_export_limit_roundtrip_single_phase : forall r x, 0 <= x < 4294967295 ->
+  exists r' w, run_gsetter (dt_settings false) dt_ws (the dt_export_limit) x r = Ok (r', [w]) /\ run_ggetter (dt_settings false) (the dt_export_limit) r' = Ok (Some x) /\
+               (forall a, a < fst w \/ fst w + snd w <= a -> r' a = r a).
+Proof. exact dt_export_limit_roundtrip_single_phase. Qed.
+
 Print Assumptions C19_charge_group.
 Print Assumptions C19_discharge_group.
 Print Assumptions C19_v1_groups.
@@ -61,3 +87,7 @@ Print Assumptions C19_eco_charge_roundtrip.
 Print Assumptions C19_eco_discharge_roundtrip.
 Print Assumptions C19_eco_partial.
 Print Assumptions C19_eco_refuted.
+Print Assumptions C19_et_export_limit_roundtrip.
+Print Assumptions C19_et_dod_roundtrip.
+Print Assumptions C19_dt_export_limit_roundtrip_three_phase.
+Print Assumptions C19_dt_export_limit_roundtrip_single_phase.
